@@ -6,6 +6,7 @@ import (
 	"strconv"
 	"strings"
 	"time"
+	"unsafe"
 
 	"github.com/relex/slog-agent/base"
 	"github.com/relex/slog-agent/defs"
@@ -82,6 +83,10 @@ func (p *poolComp) Impl(c Case) (out []string) {
 	byHandle := map[int]*base.LogRecord{}
 	lastHandle := map[*base.LogRecord]int{}
 	var keep []*base.LogRecord // every record stays referenced: an address is never reused within a case
+	bufIDs := map[uintptr]int{}
+	liveBuf := map[int]int{} // handle -> backing buffer of a record that has not been recycled
+	left := map[int]int{}    // handle -> releases until it is recycled
+	outputs, shared := 1, ""
 	nf := 0
 	atoi := func(s string) int { v, _ := strconv.Atoi(s); return v }
 	view := func(r *base.LogRecord) string {
@@ -105,18 +110,30 @@ func (p *poolComp) Impl(c Case) (out []string) {
 		switch {
 		case len(f) == 3 && f[0] == "init":
 			nf = atoi(f[1])
-			names := make([]string, nf)
+			// the records are nf fields wide (schema/maxFields); the schema names fewer fields in two cases out of three — the
+			// rest is the reserve a reload may give names to, and it is part of every record all the same
+			named := nf - nf%3
+			if named < 1 {
+				named = 1
+			}
+			names := make([]string, named)
 			for j := range names {
 				names[j] = fmt.Sprintf("f%d", j)
 			}
-			alloc = base.NewLogAllocator(base.MustNewLogSchema(names), atoi(f[2]))
+			outputs = atoi(f[2])
+			schema, serr := base.NewLogSchema(names, nf)
+			if serr != nil {
+				out[i] = "bad-op"
+				continue
+			}
+			alloc = base.NewLogAllocator(schema, outputs)
 			out[i] = "ok"
 		case len(f) == 3 && f[0] == "new" && alloc != nil:
 			size := 40
 			if f[2] == "1" {
 				size = defs.InputLogMinRecordBytesToPool + 100
 			}
-			rec, _ := alloc.NewRecord([]byte(strings.Repeat("r", size)))
+			rec, raw := alloc.NewRecord([]byte(strings.Repeat("r", size)))
 			keep = append(keep, rec)
 			src := "-"
 			if h, ok := lastHandle[rec]; ok {
@@ -124,7 +141,28 @@ func (p *poolComp) Impl(c Case) (out []string) {
 			}
 			h := atoi(f[1])
 			byHandle[h], lastHandle[rec] = rec, h
-			out[i] = "src=" + src + " " + view(rec)
+			// a long input is copied into a pooled backing buffer: the buffer is identified by the address of its first byte
+			buf := "-"
+			if f[2] == "1" {
+				addr := uintptr(unsafe.Pointer(unsafe.StringData(raw)))
+				id, ok := bufIDs[addr]
+				if !ok {
+					id = len(bufIDs) + 1
+					bufIDs[addr] = id
+				}
+				buf = strconv.Itoa(id)
+				for oh, oid := range liveBuf {
+					if oid == id {
+						shared = fmt.Sprintf("NewRecord (op %d) put its input into the backing buffer that record %d still uses", i, oh)
+					}
+				}
+				liveBuf[h] = id
+			}
+			left[h] = outputs
+			out[i] = "src=" + src + " buf=" + buf + " " + view(rec)
+			if shared != "" {
+				out[i] += " SHARED " + strings.ReplaceAll(shared, " ", "_")
+			}
 		case len(f) == 4 && f[0] == "set" && byHandle[atoi(f[1])] != nil:
 			if j := atoi(f[2]); j < nf {
 				byHandle[atoi(f[1])].Fields[j] = string(unhx(f[3]))
@@ -144,6 +182,9 @@ func (p *poolComp) Impl(c Case) (out []string) {
 		case len(f) == 2 && f[0] == "release" && byHandle[atoi(f[1])] != nil:
 			r := byHandle[atoi(f[1])]
 			alloc.Release(r)
+			if left[atoi(f[1])]--; left[atoi(f[1])] == 0 {
+				delete(liveBuf, atoi(f[1]))
+			}
 			clear := r.RawLength == 0 && r.Timestamp.IsZero()
 			for _, fv := range r.Fields {
 				clear = clear && fv == ""
@@ -168,9 +209,16 @@ func (p *poolComp) Derive(c Case, implOut []string) (ops []Op, impl []string) {
 			if !strings.HasPrefix(implOut[i], "src=") || len(f) != 3 {
 				return ops, impl
 			}
-			sp := strings.SplitN(implOut[i], " ", 2)
-			ops = append(ops, Op{Name: "pool", Strs: []string{"new", f[1], strings.TrimPrefix(sp[0], "src="), f[2]}})
-			impl = append(impl, sp[1])
+			sp := strings.SplitN(implOut[i], " ", 3)
+			if len(sp) < 3 || !strings.HasPrefix(sp[1], "buf=") {
+				return ops, impl
+			}
+			ops = append(ops, Op{Name: "pool", Strs: []string{"new", f[1], strings.TrimPrefix(sp[0], "src="), strings.TrimPrefix(sp[1], "buf=")}})
+			view := sp[2]
+			if j := strings.Index(view, " SHARED "); j >= 0 {
+				view = view[:j]
+			}
+			impl = append(impl, view)
 		default:
 			if implOut[i] == "bad-op" || strings.HasPrefix(implOut[i], "panic") {
 				return ops, impl
@@ -191,6 +239,9 @@ func (p *poolComp) Oracle(c Case, implOut []string) string {
 		if strings.HasPrefix(implOut[i], "panic") {
 			return "the allocator panicked: " + implOut[i]
 		}
+		if j := strings.Index(implOut[i], " SHARED "); j >= 0 {
+			return strings.ReplaceAll(implOut[i][j+8:], "_", " ")
+		}
 		if len(o.Strs) > 0 && o.Strs[0] == "new" && !strings.Contains(implOut[i], " fields=0 raw=0 ts=0 ") {
 			return fmt.Sprintf("NewRecord (op %d) returned a record that is not empty: %s", i, implOut[i])
 		}
@@ -199,8 +250,11 @@ func (p *poolComp) Oracle(c Case, implOut []string) string {
 }
 
 func (p *poolComp) Class(c Case, implOut []string) string {
-	reused, stale := 0, 0
+	reused, stale, bufs := 0, 0, 0
 	for _, l := range implOut {
+		if strings.HasPrefix(l, "src=") && strings.Contains(l, " buf=") && !strings.Contains(l, " buf=- ") {
+			bufs++
+		}
 		if strings.HasPrefix(l, "src=") && !strings.HasPrefix(l, "src=- ") {
 			reused++
 			if strings.HasSuffix(l, "unesc=1") {
@@ -208,12 +262,16 @@ func (p *poolComp) Class(c Case, implOut []string) string {
 			}
 		}
 	}
+	b := ""
+	if bufs > 1 {
+		b = "/backing-buffers"
+	}
 	switch {
 	case reused == 0:
-		return "no-reuse"
+		return "no-reuse" + b
 	case stale > 0:
-		return "reuse/stale-unescaped-flag"
+		return "reuse/stale-unescaped-flag" + b
 	default:
-		return "reuse"
+		return "reuse" + b
 	}
 }
